@@ -116,7 +116,8 @@ class Catalogue:
                 t.add("(arithmetic-shift 1 %d)" % e, layout="spare-words", lkind="bignum")
         if n % 1024 == 0 and n != 0:
             t.add("(* 1024 %d)" % (n // 1024))
-        if abs(n) < 2 ** 53 or (n != 0 and abs(n) & (abs(n) - 1) == 0 and abs(n) < 2 ** 1000):
+        # flonum round trip only where it is exact and away from the fixnum border (exact of 2^62 is C04's business)
+        if abs(n) < 2 ** 53 or (abs(n) & (abs(n) - 1) == 0 and 2 ** 64 <= abs(n) < 2 ** 1000):
             t.add("(exact (inexact %d))" % n)
         if n != 0:
             t.add("(numerator (/ %d 3))" % n if n % 3 else "(numerator (/ %d 7))" % n if n % 7 else "(+ %d 0)" % n)
@@ -610,7 +611,25 @@ class Catalogue:
         dl2.add("(nest 60 2)", 1).add("(nest 59 (list 2 0))", 1)
         dv.add("(nestv 60 1)", 1).add("(nestv 20 (nestv 40 1))", 1)
         dl.near += [dl2, dv]
+        # wide vectors of fresh one-element lists: more than 10000 objects to compare, so that (scheme base)
+        # equal? leaves its bounded fast path for the table-driven one although nothing is cyclic
+        nw = 10050
+        wv = Term("vec", "wide-vector", ("widevec", nw, 7))
+        wv2 = Term("vec", "wide-vector", ("widevec", nw, 8))
+        for t in (wv, wv2):
+            t.id = len(self.terms) + 1
+            self.terms.append(t)
+            self.by_canon[(t.cls, t.canon)] = t
+        wv.nodes = [("vec", None, [1] * nw), ("pair", None, [2, 3]), ("atom", I(7), []), ("atom", self.null, [])]
+        wv2.nodes = [("vec", None, [1] * (nw - 1) + [4]), ("pair", None, [2, 3]), ("atom", I(7), []), ("atom", self.null, []),
+                     ("pair", None, [5, 3]), ("atom", I(8), [])]
+        wv.add("(vector-map (lambda (x) (list 7)) (make-vector %d 0))" % nw, 1)
+        wv.add("(list->vector (map (lambda (x) (cons 7 '())) (iota* %d 0)))" % nw, 1)
+        wv.add("(let ((v (make-vector %d #f))) (let lp ((i 0)) (when (< i %d) (vector-set! v i (list (spare 7 2))) (lp (+ i 1)))) v)" % (nw, nw), 1)
+        wv2.add("(let ((v (vector-map (lambda (x) (list 7)) (make-vector %d 0)))) (vector-set! v %d (list 8)) v)" % (nw, nw - 1), 1)
+        wv.near += [wv2]
         self.big_terms = [ll, ll2, lv, dl, dl2, dv]
+        self.wide_terms = [wv, wv2]
         # ---- cyclic data (every route allocates; the graphs are written out by hand)
         A1, A2, A3 = ("atom", I(1), []), ("atom", I(2), []), ("atom", I(3), [])
         P = lambda a, d: ("pair", None, [a, d])
@@ -639,7 +658,7 @@ class Catalogue:
         self.cyclic_terms = [c12c, c13c, c123, c1, c21, c012, v1, v2, v1b, k1, k2, mut, bigc]
         self.cyclic_contrast = [fin, C(L(I(1))), C(V(I(1), I(1))), I(1)]
         self.groups = {"int": its, "ratio": rats, "cplx": cplx, "flo": flos, "char": chars, "sym": syms, "str": strs, "bv": bvs,
-                       "misc": [self.null, self.true, self.false], "compound": comps + [fin], "big": self.big_terms}
+                       "misc": [self.null, self.true, self.false], "compound": comps + [fin], "big": self.big_terms + self.wide_terms}
 
     def list_nodes(self, atoms):
         n = len(atoms)
